@@ -2,108 +2,165 @@
   C20 — Serialized CSS re-parses to the same component values.
   Theorems about the model of serialize.go (WR/C20/Serialize.lean) composed with the C06 tokenizer
   model, and about the separator table regenerated from the code (WR/Gen/C20Pairs.lean).
+  Helper lemmas: WR/C20/Lemmas.lean, RoundTrip.lean, TokenLevel.lean.
 
-  FULL STATEMENT (P2 `roundtrip`), false on the unchanged tree:
+  FULL STATEMENT (P2 `roundtrip`):
       ∀ css, hasError (tokenize css) = false → roundTrips badPairs css = true
-  What is proved instead:
-    * the per-class round trips that hold for EVERY string: names (`name_roundtrip`: hash values,
-      the tail of identifiers, units, function names) and strings (`string_roundtrip`);
-    * `separator_table_partial`: the code's table contains every pair of the css-syntax-3 table
-      except three, and `separator_table_missing` shows the three are absent;
-    * negation witnesses (`decide`) of the full statement, one per defect class; the same inputs
-      are replayed against the real code by the harness (harness/c20, Alphabet).
-  Excluded cases of `roundtrip` (each a finding, see known_findings.d/C20.json): identifiers /
-  units / function names whose first code point (after an optional `-`) is a digit; units
-  `e<digit>…`/`E<digit>…`; units `E`, `E-…`; urls holding non-printable code points; the token
-  pairs of `separator_table_missing` and the CR-2014 pairs (`-->`, `||`, `|=`, `*=`, unicode-range
-  look-alikes) listed there.
+  It is still false on the tree as repaired (commits f5de977, 841971c, 962321b, 128cada), because
+  of the three findings that were deliberately not repaired (the separator would have to go into
+  every `a>b` / `a+b` selector prelude):
+      * identifier `u`/`U`, `+`, hex digit or `?`   reads back as a unicode-range   (F20_7a, F20_7b)
+      * `<`, `!`, identifier `--…`                  reads back as `<!--`            (F20_7c)
+      * identifier `--`, `>`                        reads back as `-->`             (F20_9)
+      * two adjacent white space tokens              read back as one                (F20_8)
+  What is proved, for EVERY string (no bound on length or content):
+      names, strings, identifiers, urls, units — at the level of the consumer (`*_roundtrip`) and of
+      the whole token (`string_token_roundtrip`, `ident_token_roundtrip`, `url_token_roundtrip`,
+      `dimension_unit_roundtrip`); the exclusions of `ident_token_roundtrip` are exactly the
+      findings above.  `separator_table_complete`: the regenerated table contains every pair of the
+      css-syntax-3 §9 table; `separator_table_still_missing`: the unrepaired pair is absent.
+  `roundtrip_partial` (whole lists): see the end of this file.
 -/
-import WR.C20.Lemmas
+import WR.C20.TokenLevel
 namespace WR.Props.C20
 open WR.C06 WR.C20 WR.Gen.C20Pairs List
 
-/-- P1 (names): for EVERY string `s`, consuming a name from `serializeName s ++ r` gives back `s`
-and leaves `r`, provided `r` cannot continue a name (any fuel ≥ the length of the text) -/
+/-! ## per-class round trips, for every string -/
+
+/-- P1 (names): consuming a name from `serializeName s ++ r` gives back `s` and leaves `r`, provided
+`r` cannot continue a name (any fuel ≥ the length of the text) -/
 theorem name_roundtrip (s r : Str) (hr : stopsName r) (f : Nat) (hf : (serializeName s ++ r).length ≤ f) :
-    consumeName f (serializeName s ++ r) = (s, r) := by
-  induction s generalizing f with
-  | nil => simpa [serializeName] using consumeName_stop f r hr
-  | cons c cs ih =>
-    have hs : serializeName (c :: cs) ++ r = escName c ++ (serializeName cs ++ r) := by
-      simp [serializeName]
-    rw [hs] at hf ⊢
-    obtain ⟨f', hf', heq⟩ := consumeName_escName f c (serializeName cs ++ r) hf
-    rw [heq, ih f' hf']
+    consumeName f (serializeName s ++ r) = (s, r) :=
+  name_rt s r hr f hf
 
 example : stopsName [')', 'x'] ∧ stopsName [] ∧ stopsName ['\\', '\n'] := by
   refine ⟨⟨by decide, by decide⟩, trivial, ⟨by decide, by decide⟩⟩
 
-/-- P1 (strings): for EVERY string `s` (quotes, backslashes, newlines, control characters …),
-reading the serialization of `s` back gives `s`, ends at the closing quote and leaves what follows -/
+/-- P1 (strings): reading the serialization of `s` (quotes, backslashes, newlines, control characters …)
+back gives `s`, ends at the closing quote and leaves what follows -/
 theorem string_roundtrip (s r : Str) (f : Nat) (hf : (serializeString s ++ '"' :: r).length ≤ f) :
-    consumeString '"' f (serializeString s ++ '"' :: r) = (s, .closed, r) := by
-  induction s generalizing f with
-  | nil =>
-    cases f with
-    | zero => simp at hf
-    | succ f => simp [serializeString, consumeString]
-  | cons c cs ih =>
-    have hs : serializeString (c :: cs) ++ '"' :: r = escString c ++ (serializeString cs ++ '"' :: r) := by
-      simp [serializeString]
-    rw [hs] at hf ⊢
-    obtain ⟨f', hf', heq⟩ := consumeString_escString f c (serializeString cs ++ '"' :: r) hf
-    rw [heq, ih f' hf']
+    consumeString '"' f (serializeString s ++ '"' :: r) = (s, .closed, r) :=
+  string_rt s r f hf
+
+/-- P1 (identifiers): the text written for a non-empty identifier `s` (leading `-`, `--`, digit,
+control characters, non-ASCII …) starts an identifier and is consumed as exactly `s` -/
+theorem ident_roundtrip (s t r : Str) (hs : serializeIdentifier s = some t) (hr : stopsName r) :
+    startsIdent (t ++ r) = true ∧ ∀ f, (t ++ r).length ≤ f → consumeName f (t ++ r) = (s, r) :=
+  ident_rt s t r hs hr
+
+example : serializeIdentifier ['-', '1', 'a'] = some ['-', '\\', '3', '1', ' ', 'a'] := by decide
+
+/-- P1 (urls): `url(` … `)` around the text written for `s` (no NUL, which no token value contains)
+is consumed as the url token `s`: white space, quotes, parentheses, backslashes and non-printable
+code points all come back -/
+theorem url_roundtrip (pos : Nat) (s r : Str) (h0 : ∀ c ∈ s, c ≠ '\x00') :
+    consumeUrl Quirks.spec pos (serializeUrl s ++ ')' :: r) = ([Tok.url pos s false], r) :=
+  url_rt Quirks.spec pos s r h0
+
+example : ∀ c ∈ (['a', '\x01', ' ', ')'] : Str), c ≠ '\x00' := by decide
+
+/-- P1 (dimension units): the text written for the unit `u` starts an identifier, is consumed as
+exactly `u`, and is never read as the exponent of the number before it -/
+theorem unit_roundtrip (u t r : Str) (hs : serializeUnit u = some t) (hr : stopsName r) :
+    startsIdent (t ++ r) = true ∧ (∀ f, (t ++ r).length ≤ f → consumeName f (t ++ r) = (u, r)) ∧
+    takeExp (t ++ r) = ([], t ++ r) :=
+  unit_rt u t r hs hr
+
+example : serializeUnit ['E', '3'] = some ['\\', '4', '5', ' ', '3'] ∧ serializeUnit ['e', 'm'] = some ['e', 'm'] := by
+  decide
 
 /-- a hash token that is not an identifier (`#` + name) survives: the tokenizer reads the name back -/
 theorem hash_name_roundtrip (s r : Str) (hr : stopsName r) :
     consumeName (serializeName s ++ r).length (serializeName s ++ r) = (s, r) :=
-  name_roundtrip s r hr _ (Nat.le_refl _)
+  name_rt s r hr _ (Nat.le_refl _)
+
+/-! ## the same at the level of whole tokens (`step` = "consume a token") -/
+
+/-- strings: no side condition at all -/
+theorem string_token_roundtrip (total : Nat) (s r : Str) :
+    step Quirks.spec total ('"' :: serializeString s ++ '"' :: r)
+      = .leaf [Tok.str (total - ('"' :: serializeString s ++ '"' :: r).length) s false] r :=
+  string_step total s r
+
+/-- identifiers: what follows must not continue the name nor be `(`; the two remaining hypotheses
+are exactly the unrepaired findings F20-7 (`u+…` unicode-range) and F20-9 (`--` `>` = CDC) -/
+theorem ident_token_roundtrip (total : Nat) (s t r : Str) (hs : serializeIdentifier s = some t)
+    (hr : stopsName r) (hparen : ∀ r', r ≠ '(' :: r')
+    (hur : startsURange (t ++ r) = false) (hcdc : ((t ++ r).take 3 == ['-', '-', '>']) = false) :
+    step Quirks.spec total (t ++ r) = .leaf [Tok.ident (total - (t ++ r).length) s] r :=
+  ident_step total s t r hs hr hparen hur hcdc
+
+example : stopsName [' ', 'x'] ∧ (∀ r', ([' ', 'x'] : Str) ≠ '(' :: r') ∧
+    startsURange (['u', '\\', '+'] ++ [' ', 'x']) = false := by
+  refine ⟨⟨by decide, by decide⟩, fun r' h => by cases h, by decide⟩
+
+/-- urls -/
+theorem url_token_roundtrip (total : Nat) (s r : Str) (h0 : ∀ c ∈ s, c ≠ '\x00') :
+    step Quirks.spec total ('u' :: 'r' :: 'l' :: '(' :: (serializeUrl s ++ ')' :: r))
+      = .leaf [Tok.url (total - ('u' :: 'r' :: 'l' :: '(' :: (serializeUrl s ++ ')' :: r)).length) s false] r :=
+  url_step total s r h0
+
+/-- dimensions: after any number, the unit text makes the token a dimension with exactly that unit -/
+theorem dimension_unit_roundtrip (pos : Nat) (repr : Str) (isInt : Bool) (u t r : Str)
+    (hs : serializeUnit u = some t) (hr : stopsName r) :
+    consumeNumeric pos repr isInt (t ++ r) = .leaf [Tok.dim pos repr isInt u] r :=
+  dim_numeric pos repr isInt u t r hs hr
 
 /-! ## the separator table (regenerated from the code on every run) -/
 
-/-- the three pairs of the css-syntax-3 §9 table that the code's table lacks -/
-def missingSpecPairs : Pairs :=
-  [("#".toList, "-".toList), ("-".toList, "-".toList), ("number".toList, "%".toList)]
+/-- P1 `separator_complete` over the table: every pair of the css-syntax-3 §9 table is in the code's
+table (no exclusion left after commit 128cada) -/
+theorem separator_table_complete :
+    specPairs.all (fun p => isBadPair badPairs p.1 p.2) = true := by decide
 
-/-- P1 `separator_complete`, partial: every pair of the css-syntax-3 table other than the three
-above is in the code's table … -/
-theorem separator_table_partial :
-    (specPairs.filter (fun p => !isBadPair missingSpecPairs p.1 p.2)).all
-      (fun p => isBadPair badPairs p.1 p.2) = true := by decide
-
-/-- … and the three are indeed absent (negation witness of the full `separator_complete`) -/
-theorem separator_table_missing :
-    missingSpecPairs.all (fun p => !isBadPair badPairs p.1 p.2) = true := by decide
-
-/-- pairs of the repository's extended vocabulary (CDC, column and match tokens) that fuse and are
-not in the table either -/
-theorem separator_table_missing_extended :
+/-- the fusing pairs of the repository's extended vocabulary (CDC, column and match tokens) added by
+commit 128cada are there too -/
+theorem separator_table_extended :
     ([("number".toList, "-->".toList), ("#".toList, "-->".toList), ("@".toList, "-->".toList),
       ("-".toList, "-->".toList), ("/".toList, "*=".toList), ("|".toList, "|=".toList),
-      ("|".toList, "||".toList), ("ident".toList, ">".toList)] : Pairs).all
+      ("|".toList, "||".toList)] : Pairs).all (fun p => isBadPair badPairs p.1 p.2) = true := by decide
+
+/-- the pairs deliberately left out (unrepaired findings): identifier then `>`, identifier then `+`,
+`!` then identifier, white space then white space -/
+theorem separator_table_still_missing :
+    ([("ident".toList, ">".toList), ("ident".toList, "+".toList), ("!".toList, "ident".toList),
+      ("whitespace".toList, "whitespace".toList)] : Pairs).all
       (fun p => !isBadPair badPairs p.1 p.2) = true := by decide
 
-/-! ## negation witnesses of the full round trip (one per defect class) -/
+/-- white space never needs nor gets a separator (used by `roundtrip_partial`) -/
+theorem separator_table_whitespace :
+    badPairs.all (fun p => p.1 != "whitespace".toList && p.2 != "whitespace".toList && p.1 != []) = true := by
+  decide
+
+/-! ## regression examples of the repaired defects, negation witnesses of the unrepaired ones
+(the same inputs are corpus cases / fixed inputs of the harness) -/
 
 /-- sanity: the round trip does hold on ordinary input (separator inserted between `a` and `b(`) -/
 theorem roundtrip_example :
     roundTrips badPairs ['a', '/', '*', '*', '/', 'b', '(', '1', 'p', 'x', ' ', '"', 'q', '"', ')'] = true := by decide
 
-/-- F20-1 `5/**/%`: number then `%` is written `5%`, a percentage -/
-theorem F20_1_number_percent : roundTrips badPairs ['5', '/', '*', '*', '/', '%'] = false := by decide
-/-- F20-2 `1\45 3`: unit `E3` is written `1E3`, the number 1000 -/
-theorem F20_2_unit_exponent : roundTrips badPairs ['1', '\\', '4', '5', ' ', '3'] = false := by decide
-/-- F20-3 `url(\1 )`: the url is written with a raw U+0001, a bad url -/
-theorem F20_3_url_nonprintable : roundTrips badPairs ['u', 'r', 'l', '(', '\\', '1', ' ', ')'] = false := by decide
-/-- F20-4 `1\45 `: unit `E` is written `\65 `, unit `e` -/
-theorem F20_4_unit_E_lowered : roundTrips badPairs ['1', '\\', '4', '5', ' '] = false := by decide
-/-- F20-5 `\31 a`: identifier `1a` is written `\31a`, the identifier U+031A -/
-theorem F20_5_digit_start : roundTrips badPairs ['\\', '3', '1', ' ', 'a'] = false := by decide
-/-- F20-6 dash, comment, dash, space: the two dashes are written `--`, an identifier -/
-theorem F20_6_dash_dash : roundTrips badPairs ['-', '/', '*', '*', '/', '-', ' '] = false := by decide
-/-- F20-7 `u/**/+/**/a`: ident `u`, `+`, ident `a` are written `u+a`, a unicode-range -/
-theorem F20_7_unicode_range : roundTrips badPairs ['u', '/', '*', '*', '/', '+', '/', '*', '*', '/', 'a'] = false := by decide
-/-- F20-8 ` /**/ `: two white space tokens are written as one -/
+/-- F20-1 (128cada) `5/**/%`: number then `%` now get a separator -/
+theorem regression_F20_1 : roundTrips badPairs ['5', '/', '*', '*', '/', '%'] = true := by decide
+/-- F20-2 (962321b) `1\45 3`: unit `E3` is written `1\45 3` -/
+theorem regression_F20_2 : roundTrips badPairs ['1', '\\', '4', '5', ' ', '3'] = true := by decide
+/-- F20-3 (841971c) `url(\1 )`: the non-printable code point is written as a hex escape -/
+theorem regression_F20_3 : roundTrips badPairs ['u', 'r', 'l', '(', '\\', '1', ' ', ')'] = true := by decide
+/-- F20-4 (962321b) `1\45 `: unit `E` keeps its case -/
+theorem regression_F20_4 : roundTrips badPairs ['1', '\\', '4', '5', ' '] = true := by decide
+/-- F20-5 (f5de977) `\31 a`: identifier `1a` is written `\31 a` -/
+theorem regression_F20_5 : roundTrips badPairs ['\\', '3', '1', ' ', 'a'] = true := by decide
+/-- F20-6 (128cada) dash, comment, dash, space: the two dashes get a separator -/
+theorem regression_F20_6 : roundTrips badPairs ['-', '/', '*', '*', '/', '-', ' '] = true := by decide
+
+/-- F20-7a (not repaired) `u/**/+/**/a`: ident `u`, `+`, ident `a` are written `u+a`, a unicode-range -/
+theorem F20_7a_unicode_range : roundTrips badPairs ['u', '/', '*', '*', '/', '+', '/', '*', '*', '/', 'a'] = false := by decide
+/-- F20-7b (not repaired) `u/**/+/**/?` -/
+theorem F20_7b_unicode_range : roundTrips badPairs ['u', '/', '*', '*', '/', '+', '/', '*', '*', '/', '?'] = false := by decide
+/-- F20-7c (not repaired) `</**/!/**/--x`: written `<!--x`, CDO -/
+theorem F20_7c_cdo : roundTrips badPairs ['<', '/', '*', '*', '/', '!', '/', '*', '*', '/', '-', '-', 'x'] = false := by decide
+/-- F20-9 (not repaired) `--/**/>`: written `-->`, CDC -/
+theorem F20_9_cdc : roundTrips badPairs ['-', '-', '/', '*', '*', '/', '>'] = false := by decide
+/-- F20-8 (not repaired, harmless) ` /**/ `: two white space tokens are written as one -/
 theorem F20_8_whitespace : roundTrips badPairs [' ', '/', '*', '*', '/', ' '] = false := by decide
 
 end WR.Props.C20
